@@ -495,6 +495,9 @@ func (e *Engine) atLoopHeader(st *State, fr *Frame, li *loopInfo, from *ssa.Basi
 			if cl.NoCase && e.cur.caseName != "" {
 				continue
 			}
+			if cl.Case != "" && cl.Case != e.cur.caseName {
+				continue // invariant of another behaviour
+			}
 			invs = append(invs, cl)
 		}
 	}
